@@ -348,7 +348,8 @@ def gen_spec(rng, max_depth=4, root=True, pid=None, allow=None, parent_kind=None
             return mod(nm, depth_left)
         if k in ("list", "seq"):
             c = cont(k == "seq", depth_left)
-            if rng.random() < 0.15 and (c[2] or c[3]):
+            # a slice is a ModuleList: not callable from inside a Sequential
+            if rng.random() < 0.15 and (c[2] or c[3]) and (under[0] != "seq" or rng.random() < allow.get("invalid", 0)):
                 n = len(c[2]) + len(c[3])
                 lo = rng.randrange(0, n + 1)
                 hi = rng.randrange(lo, n + 2)
